@@ -26,12 +26,10 @@ def strip_comments(s):
 
 def fn_body(text, name):
     """Text of `fn name(...) ... { body }` (brace matched), comments stripped, whitespace collapsed."""
-    m = re.search(r"\bfn\s+" + re.escape(name) + r"\b", text)
+    m = re.search(r"\bfn\s+" + re.escape(name) + r"\b[^;{]*\{", text)
     if not m:
         return None
-    i = text.find("{", m.end())
-    if i < 0:
-        return None
+    i = m.end() - 1
     depth, j = 0, i
     while j < len(text):
         if text[j] == "{":
@@ -76,6 +74,52 @@ def main():
     nat("unhexify_step", ub or "", r"step_by\((\d+)\)")
     nat("unhexify_radix", ub or "", r"from_str_radix\(\s*&s\[[^\]]*\]\s*,\s*(\d+)\s*\)")
     nat("unhexify_slice_width", ub or "", r"&s\[i\s*\.\.\s*i\s*\+\s*(\d+)\]")
+    # ---- codec: element order of the hand-written Serialize impls, constants
+    def ser_elems(text, ty):
+        m = re.search(r"impl Serialize for " + ty + r"\b", text)
+        if not m:
+            return None
+        body = fn_body(text[m.end():], "serialize")
+        if body is None:
+            return None
+        return "|".join(re.sub(r"\s+", "", a) for a in re.findall(r"serialize_element\(\s*&(.*?)\)\?", body))
+    def de_fields(text, visitor):
+        m = re.search(r"impl<'de> Visitor<'de> for " + visitor + r"\b", text)
+        if not m:
+            return None
+        body = fn_body(text[m.end():], "visit_seq")
+        if body is None:
+            return None
+        return "|".join(re.findall(r"let (?:mut )?(\w+)(?:\s*:\s*[\w:<>\(\), ]+)?\s*=\s*(?:if |seq\b)", body))
+    primary = src("primary.rs"); canonical = src("canonical.rs"); bundle = src("bundle.rs"); eid = src("eid.rs")
+    crc = src("crc.rs"); dtntime = src("dtntime.rs"); flags = src("flags.rs")
+    txt("ser_primary", ser_elems(primary, "PrimaryBlock"))
+    txt("ser_canonical", ser_elems(canonical, "CanonicalBlock"))
+    txt("ser_eid", ser_elems(eid, "EndpointID"))
+    txt("de_primary", de_fields(primary, "PrimaryBlockVisitor"))
+    txt("de_canonical", de_fields(canonical, "CanonicalBlockVisitor"))
+    tc = fn_body(bundle, "to_cbor")
+    nat("tocbor_start", tc or "", r"vec!\[(0x[0-9a-fA-F]+)\]")
+    nat("tocbor_break", tc or "", r"push\((0x[0-9a-fA-F]+)\)")
+    nat("dtn_version", bundle, r"pub const DTN_VERSION: u32 = (\d+);")
+    for nm in ["PAYLOAD_BLOCK", "PREVIOUS_NODE_BLOCK", "BUNDLE_AGE_BLOCK", "HOP_COUNT_BLOCK"]:
+        nat(nm.lower(), canonical, r"pub const " + nm + r": CanonicalBlockType = (\d+);")
+    for nm in ["CRC_NO", "CRC_16", "CRC_32"]:
+        nat(nm.lower(), crc, r"pub const " + nm + r": CrcRawType = (\d+);")
+    m = re.search(r"X25: Crc<u16> = Crc::<u16>::new\(&(\w+)\)", crc)
+    txt("crc16_catalogue", m.group(1) if m else None)
+    m = re.search(r"CASTAGNOLI: Crc<u32> = Crc::<u32>::new\(&(\w+)\)", crc)
+    txt("crc32_catalogue", m.group(1) if m else None)
+    nat("eid_scheme_dtn", eid, r"const ENDPOINT_URI_SCHEME_DTN: u8 = (\d+);")
+    nat("eid_scheme_ipn", eid, r"const ENDPOINT_URI_SCHEME_IPN: u8 = (\d+);")
+    for nm in ["BUNDLE_STATUS_REQUEST_DELETION", "BUNDLE_STATUS_REQUEST_DELIVERY", "BUNDLE_STATUS_REQUEST_FORWARD",
+               "BUNDLE_STATUS_REQUEST_RECEPTION", "BUNDLE_REQUEST_STATUS_TIME", "BUNDLE_REQUEST_USER_APPLICATION_ACK",
+               "BUNDLE_MUST_NOT_FRAGMENTED", "BUNDLE_ADMINISTRATIVE_RECORD_PAYLOAD", "BUNDLE_IS_FRAGMENT",
+               "BUNDLE_CFRESERVED_FIELDS", "BLOCK_REPLICATE", "BLOCK_STATUS_REPORT", "BLOCK_DELETE_BUNDLE",
+               "BLOCK_REMOVE", "BLOCK_CFRESERVED_FIELDS"]:
+        nat("flag_" + nm.lower(), flags, r"const " + nm + r" = (0x[0-9a-fA-F]+);")
+    nat("seconds1970_to2k", dtntime, r"pub const SECONDS1970_TO2K: u64 = ([\d_]+);")
+    nat("ms1970_to2k", dtntime, r"const MS1970_TO2K: u64 = ([\d_]+);")
     # ---- emit
     lines = ["/- GENERATED by tools/extract.py from /repo/src — do not edit. -/", "namespace Bp7.Extracted", ""]
     for name, kind, v in facts:
